@@ -275,6 +275,12 @@ func pgpInspect(c *Ctx, prop, kind string, private bool, stream []byte, extra Sx
 	if unmod {
 		op += "_x" // outside the modelled domain: spec-checked, not compared with the model
 	}
+	if prop == "C12" {
+		// SHA-1 is computed by the model (no recorded SHA-1 answers); the spec checker recomputes the
+		// fingerprints from the key packets listed in the fifth element
+		c.Emit(op+":"+kind, SL{Bool(private), SB(stream), c12NoSha1Answers(oracle), extra, c12KeyBodies(stream)}, obs)
+		return
+	}
 	c.Emit(op+":"+kind, SL{Bool(private), SB(stream), oracle, extra}, obs)
 }
 
@@ -657,7 +663,7 @@ func genC12(c *Ctx) {
 		if k0 != nil && wf {
 			ref[2] = keyRef(k0) // which key was written: the attributes are checked too
 		}
-		c.Emit("keyhash:"+tag, SL{SB(body), ob.entries, ref}, impl)
+		c.Emit("keyhash:"+tag, SL{SB(body), c12NoSha1Answers(ob.entries), ref}, impl) // the model hashes itself
 	}
 	nk := 2
 	if c.Thorough() {
@@ -944,6 +950,8 @@ func genC12(c *Ctx) {
 	pgpMalformed(c)
 	// ---- keys produced by GnuPG, GnuPG's own listing as the reference ----
 	genGPG(c)
+	// ---- the model's SHA-1 against crypto/sha1 (c12_sha1.go) ----
+	genC12Sha1(c)
 }
 
 // pgpMalformed mutates complete valid keys at the packet level: truncation, length fields,
@@ -1187,7 +1195,7 @@ func gpgInspect(c *Ctx, kind string, private bool, armored, stream []byte, ref S
 	if unmod {
 		op += "_x"
 	}
-	c.Emit(op+":"+kind, SL{Bool(private), SB(stream), oracle, ref}, obs)
+	c.Emit(op+":"+kind, SL{Bool(private), SB(stream), c12NoSha1Answers(oracle), ref, c12KeyBodies(stream)}, obs)
 }
 
 var gpgCaps = map[byte]int{'c': 0x01, 's': 0x02, 'e': 0x0c, 'a': 0x20}
